@@ -210,7 +210,11 @@ theorem length_compE (e : Expr) (pc : Nat) : (compE e pc).length = size e := by
   | list es => simp [compE, size, length_compEs es] <;> omega
   | set es => simp [compE, size, length_compEs es] <;> omega
   | dict kvs => simp [compE, size, length_compKVs kvs] <;> omega
-  | lambda0 b => simp [compE, size] <;> omega
+  | lambda sg ds kds b => simp [compE, size, length_compEs ds, length_compKWs kds] <;> omega
+  | slice3 lo hi st => simp [compE, size, length_compE lo, length_compE hi, length_compE st] <;> omega
+  | callx f args kws star dstar =>
+    simp [compE, size, length_compE f, length_compEs args, length_compKWs kws, length_compOpt star,
+      length_compOpt dstar] <;> omega
 theorem length_compEs (es : Exprs) (pc : Nat) : (compEs es pc).length = sizes es := by
   cases es with
   | nil => simp [compEs, sizes] <;> omega
@@ -230,6 +234,14 @@ theorem length_compKVs (kvs : KVs) (pc : Nat) : (compKVs kvs pc).length = sizeKV
   | nil => simp [compKVs, sizeKVs] <;> omega
   | cons k v rest =>
     simp [compKVs, sizeKVs, length_compE k, length_compE v, length_compKVs rest] <;> omega
+theorem length_compKWs (kws : KWs) (pc : Nat) : (compKWs kws pc).length = sizeKWs kws := by
+  cases kws with
+  | nil => simp [compKWs, sizeKWs]
+  | cons n e rest => simp [compKWs, sizeKWs, length_compE e, length_compKWs rest] <;> omega
+theorem length_compOpt (o : OptE) (pc : Nat) : (compOpt o pc).length = sizeOpt o := by
+  cases o with
+  | none => simp [compOpt, sizeOpt]
+  | some e => simp [compOpt, sizeOpt, length_compE e]
 end
 
 mutual
@@ -239,10 +251,24 @@ theorem length_compT (t : Target) (pc : Nat) : (compT t pc).length = sizeT t := 
   | subscr a i => simp [compT, sizeT, length_compE] <;> omega
   | attr a n => simp [compT, sizeT, length_compE]
   | tuple ts => simp [compT, sizeT, length_compTs ts] <;> omega
+  | star b t a => simp [compT, sizeT, length_compTs b, length_compT t, length_compTs a] <;> omega
 theorem length_compTs (ts : Targets) (pc : Nat) : (compTs ts pc).length = sizeTs ts := by
   cases ts with
   | nil => simp [compTs, sizeTs]
   | cons t ts => simp [compTs, sizeTs, length_compT t, length_compTs ts]
+end
+
+mutual
+theorem length_compD (t : DelTarget) (pc : Nat) : (compD t pc).length = sizeD t := by
+  cases t with
+  | name n => simp [compD, sizeD]
+  | subscr a i => simp [compD, sizeD, length_compE] <;> omega
+  | attr a n => simp [compD, sizeD, length_compE]
+  | tuple ts => simp [compD, sizeD, length_compDs ts]
+theorem length_compDs (ts : DelTargets) (pc : Nat) : (compDs ts pc).length = sizeDs ts := by
+  cases ts with
+  | nil => simp [compDs, sizeDs]
+  | cons t ts => simp [compDs, sizeDs, length_compD t, length_compDs ts]
 end
 
 theorem length_compTargets : (more : Targets) → (t : Target) → (pc : Nat) →
@@ -260,6 +286,8 @@ theorem length_compS (st : Stmt) (pc : Nat) : (compS st pc).length = sizeS st :=
     cases e with
     | const c => cases c <;> simp [compS, sizeS, compE, size]
     | _ => simp [compS, sizeS, length_compE]
+  | del ts => simp [compS, sizeS, length_compDs]
+  | funcdef name sg ds kds body => simp [compS, sizeS, length_compEs, length_compKWs] <;> omega
 
 theorem length_compStmts (ss : List Stmt) (pc : Nat) : (compStmts ss pc).length = sizeProg ss := by
   induction ss generalizing pc with
